@@ -120,9 +120,9 @@ def exec_job(job):
             out = bct.pagerank_centrality(A(), job["dp"] / job["dq"],
                                           falff=np.array(f, dtype=job.get("f_dtype", "float64")) if f else None)
         elif fn == "eigenvector_centrality_und":
-            out = bct.eigenvector_centrality_und(A())
+            out = bct.eigenvector_centrality_und(np.asmatrix(A()) if job.get("as_matrix") else A())
         elif fn == "subgraph_centrality":
-            out = bct.subgraph_centrality(A())
+            out = bct.subgraph_centrality(np.asmatrix(A()) if job.get("as_matrix") else A())
         else:
             raise KeyError(fn)
     except pool.CallTimeout:
@@ -262,7 +262,12 @@ def walk_jobs(A, src, rng, falff=False, p_plain=None):
 
 def spectral_jobs(A, src, rng=None, p_plain=None):
     v = draw(rng, A, p_plain)
-    return [J("eigenvector_centrality_und", A, src, v), J("subgraph_centrality", A, src, v)]
+    out = [J("eigenvector_centrality_und", A, src, v), J("subgraph_centrality", A, src, v)]
+    if rng is not None and rng.random() < 0.15:
+        # the adjacency matrix as an np.matrix (np.asmatrix, .todense() of a sparse matrix): what numpy
+        # returns for it keeps the subclass, and `*` on that is a matrix product
+        out += [dict(j, as_matrix=1, src=src + "+np.matrix") for j in out]
+    return out
 
 
 def weightings(rng, edges, k):
@@ -517,7 +522,7 @@ def run(ctx):
         models.append(lambda: ctx.mc("MC_RandomWalk.tla", "MC_RandomWalk_live.cfg", workers=4))
     ctx.parallel(models, width=3)
     jobs = build_jobs(ctx)
-    recs = pool.run_jobs(__name__, jobs, reuse=True, abort=True)
+    recs = pool.run_jobs(__name__, jobs, reuse=True, abort=True, strict_fp=True)
     # the scale-regime records are large (n^3 encoded counts each): their own small batches, next to
     # the batches of the small records
     big = [k for k, j in enumerate(jobs) if j.get("big")]
